@@ -117,7 +117,7 @@ class HttpRun(object):
                 self.nreq += 1
                 raw, code = ACTIONS[act]
                 self.log(t='peer', stage='http', i=0, act='code' if code else ('stall' if raw == 'stall' else 'disconnect' if raw == 'close' else 'malformed'),
-                         code=code, conn=conn, trans=self.nreq - 1, marker=marker, m=marker)
+                         code=code, conn=conn, trans=self.nreq - 1, marker=marker, m=marker, action=act)
                 if raw == 'close':
                     break
                 if raw == 'stall':
